@@ -685,7 +685,7 @@ pub fn write_cmap(map: &ToUnicodeMap) -> String {
                 write!(buf, " [").unwrap();
                 for (i, &(_cid, u)) in block.iter().enumerate() {
                     if i > 0 {
-                        write!(buf, ", ").unwrap();
+                        write!(buf, " ").unwrap();
                     }
                     write_unicode(&mut buf, u);
                 }
